@@ -47,3 +47,33 @@ claim("C18",
       "Not covered: that the timer fires at the configured time; time spent blocked in Transport.Write.",
       "SSA value-origin of context operands + CFG must-follow on failure edges",
       "DESIGN.md section 4, C18")
+
+claim("C13",
+      "Decided: the classification structure of KeepAlive and the reaction of the reconnect loop — loop shape (ticker from the interval parameter, Ping under WithTimeout(own ctx, timeout parameter), success loops, returns only on the error edge); classification order on the error edge as two separate prioritised non-blocking tests (parent context => ctx.Err(), then timeout context => ErrPingTimeout, else the ping error) with no cancel of the timeout context before its test; the reconnect loop starts KeepAlive exactly when PingInterval > 0 for the iteration's own client under a child context cancelled on every exit of the connected phase, and a failure closes that client; Ping registers its waiter before writing and honours its context.",
+      "Not covered: actual periodicity, drift, timer accuracy (delegated to time.Ticker / context.WithTimeout, whose operands are checked for identity only).",
+      "CFG dominance/ordering rules over go/ssa selects + operand value-origin",
+      "DESIGN.md section 4, C13")
+
+claim("C15",
+      "The structural facts are the argument: an atomically incremented 32-bit counter truncated to 16 bits gives pairwise different values for any 65536 consecutive draws, and skipping 0 costs one draw. Decided: idLast is touched only as &c.idLast operand of sync/atomic calls; newID = uint16(AddUint32(&c.idLast, odd constant)); StoreUint32 only in initID, called only from init(); newID returns the draw only on the `id != 0` edge, otherwise a fresh draw; subscribe/unsubscribe draw exactly once before registration and use the value as key and packet id; publish draws only when Message.ID == 0 and the queued copy keeps the caller's id; the seed interval lies in [1, 65535].",
+      "Not covered: more than 65535 draws while one request stays outstanding; collisions with ids the caller supplied (both outside the statement's bound).",
+      "who-may-access (all FieldAddr uses of the counter) + edge dominance + constant interval arithmetic",
+      "DESIGN.md section 4, C15")
+
+claim("C16",
+      "Decided: Disconnected is absorbing and the callback fires only on a change, outside the lock, with the state stored and the error read in the same critical section (connStateUpdate is the sole writer of connState); who reports what (Active only from Connect on an accepting CONNACK received from the waiter; Closed only from the reader goroutine; Disconnected only from Disconnect and before DISCONNECT is written); reader exit records the error — exactly when the state is not Disconnected, tested under the lock — before Closed is reported and before Done() is closed; SetErrorOnce keeps the first error under muErr, is the sole writer of err, and is called only by the reader goroutine on its own client and by the keep-alive goroutine on the client it watches, before closing it; Done() returns the channel whose only close is the reader goroutine's.",
+      "Not covered: the interleaving of a user Close() with Disconnect(); what the peer does.",
+      "who-may-call / who-may-write tables by constant argument + edge dominance + lock-held-at checks + ordering (no path from later event to earlier)",
+      "DESIGN.md section 4, C16")
+
+claim("C17",
+      "Decided: RetryClient.Handle stores the handler on every path and forwards the same value to the current client exactly when one exists, under the lock; RetryClient.Connect installs the stored handler on the client, inside the critical section in which it read the client, before that client's Connect starts its reader goroutine; BaseClient.Connect has no other caller in the package and the reconnect loop goes through SetClient + RetryClient.Connect; the reader loads the handler per message under the lock and BaseClient.Handle is the only writer of the field.",
+      "Not covered: messages the broker sends before CONNACK processing finished; user handlers.",
+      "CFG must-pass-through + dominance + who-may-call/write",
+      "DESIGN.md section 4, C17")
+
+claim("C19",
+      "NOT decided: the chain-walking semantics of (*Error).Is (a data-dependent loop with reflection) — 'finds every sentinel at any depth, never reports an absent one' is a statement about all chains. Decided: wrapErrorImpl keeps the cause (Err = parameter; nil and io.EOF pass through on exactly their edges) and every wrapper delegates to it, the retry variant embedding the same *Error with the given handle; method-set witnesses via go/types; error-construction discipline over every returned error value of the package (nil / passed through / sentinel / wrapError* / library error struct — never fmt.Errorf or errors.New); an interrupted QoS>=1 publish, subscribe or unsubscribe returns an ErrorWithRetry whose handle re-issues that request on the client it is given; a cancelled caller context is reported as that context's error (request waits and KeepAlive's prioritised classification).",
+      "Not covered: Is() semantics (see above); errors produced by user callbacks or the Transport.",
+      "value-origin classification of every error return (SSA) + go/types method sets + handle typestate",
+      "DESIGN.md section 4, C19")
